@@ -79,6 +79,15 @@ var raceOps = []opFn{
 	{"RectClipLinesPaths64", func(s, c clip.Paths64, sd, cd clip.PathsD) any {
 		return clip.RectClipLinesPaths64(clip.NewRect64(3, 3, 40, 30), s)
 	}},
+	{"RectClipPathsD, paths inside the rectangle", func(s, c clip.Paths64, sd, cd clip.PathsD) any {
+		return clip.RectClipPathsD(clip.NewRectD(-100, -100, 200, 200), sd, 2)
+	}},
+	{"RectClipPathsD, other input, paths inside", func(s, c clip.Paths64, sd, cd clip.PathsD) any {
+		return clip.RectClipPathsD(clip.NewRectD(-100, -100, 200, 200), cd, 2)
+	}},
+	{"RectClipLinesPathsD", func(s, c clip.Paths64, sd, cd clip.PathsD) any {
+		return clip.RectClipLinesPathsD(clip.NewRectD(2, 2, 20, 15), cd, 1)
+	}},
 	{"RectClip64 object", func(s, c clip.Paths64, sd, cd clip.PathsD) any {
 		rc := clip.NewRectClip64(clip.NewRect64(5, 5, 25, 45))
 		return []clip.Paths64{rc.Execute(s), rc.Execute(c)}
